@@ -379,7 +379,7 @@ def check_array(ctx, db, rule='R-ARRAY'):
             g = f.cfg
             grow = next((s for s in f.walk() if is_assign(s) and lvalue_key(s.child('lhs')) == 'this->items'), None)
             mm = next(iter(f.calls('memmove')), None)
-            ok = grow is not None and mm is not None and grow.id < mm.id and any(i.k == 'IfStmt' and 'this->count == this->capacity' in i.child('cond').text() for i in grow.ancestors())
+            ok = grow is not None and mm is not None and grow.id < mm.id and any(i.k == 'IfStmt' and _full_test(i.child('cond')) for i in grow.ancestors())
             ctx.check(ok, rule, key + '/grow-before-shift', f.loc(), 'capacity is grown (when full) before the tail is shifted')
             r = clone.Renamer(f)
             ok2 = mm is not None and '((this->items + p0) + 1)' in mm.args[0].text(r) and mm.args[1].text(r).endswith('(this->items + p0)') and '(this->count - p0)' in mm.args[2].text(r)
@@ -392,7 +392,7 @@ def check_array(ctx, db, rule='R-ARRAY'):
                 is_assign(s) and lvalue_key(s.child('lhs')) == 'this->capacity' and s.child('rhs').text().endswith('.count') for s in f.walk()) and 'this->count' in cp.args[2].text()
             ctx.check(ok, rule, key + '/allocates-count', f.loc(), 'copy_from allocates src.count items and copies count items')
         elif f.name == 'append':
-            ok = any(i.k == 'IfStmt' and 'this->count == this->capacity' in i.child('cond').text() for i in f.walk())
+            ok = any(i.k == 'IfStmt' and _full_test(i.child('cond')) for i in f.walk())
             ctx.check(ok, rule, key + '/grow-when-full', f.loc(), 'append grows exactly when count == capacity')
         elif f.name == 'ensure_slots':
             ok = any(i.k == 'IfStmt' and i.child('cond').text(clone.Renamer(f)) == '(this->capacity < (this->count + p0))' for i in f.walk())
@@ -430,6 +430,11 @@ def check_property_lists(ctx, db, nullable, rule='R-NULL'):
     f = db.fn('gdstk::get_or_add_property')
     pre = any(is_assign(s) and s.child('lhs').k == 'MemberExpr' and s.child('lhs').n == 'next' and s.child('rhs').k == 'DeclRefExpr' and s.child('rhs').dk == 'param' for s in f.walk())
     ctx.check(pre, 'R-COPY.list', 'gdstk::get_or_add_property/prepends', f.loc(), 'a new property is linked in front of the list head')
+
+
+def _full_test(cond):
+    """the condition contains `count == capacity` (either operand order)"""
+    return any(x.k == 'BinaryOperator' and x.op == '==' and {lvalue_key(flow._strip_casts(x.child('lhs'))), lvalue_key(flow._strip_casts(x.child('rhs')))} == {'this->count', 'this->capacity'} for x in cond.walk())
 
 
 def check_heap(ctx, db):
